@@ -422,3 +422,36 @@ Example transform_restores_applies :
        (ETransform (ELit (VList [VStr "a"])) "v" [SAssign "f" (EName "v")] TyOther)
   = Ok (VList [VMap [("f", VStr "a")]], [("v", VStr "outer")]).
 Proof. vm_compute. reflexivity. Qed.
+
+(* ---- the caller's scope as a whole (second pass) ----
+   After EvaluateView every variable the caller had bound is bound to the same value, provided no `let` of the view's
+   own body takes the name of a variable the caller has bound - exactly the carve-out of the known finding
+   caller-binding-rebound-by-let (the other known finding, a nested let replacing an outer let, happens between lets of
+   the body and never touches a caller variable: it needs no carve-out here).  Values being pure, "bound to the same
+   value" is the deep comparison the oracle makes. *)
+Theorem evaluate_view_pure_full : forall fuel vs name vw sc v sc',
+  assoc String.eqb name vs = Some vw ->
+  evaluate_view fuel vs name sc = Ok (v, sc') ->
+  (forall x, In x (lets (v_body vw)) -> sget x sc = None) ->
+  sget implied_result sc = None ->
+  forall x val, sget x sc = Some val -> sget x sc' = Some val.
+Proof.
+  intros fuel vs name vw sc v sc' Hv H NL NI x val B. unfold evaluate_view in H. rewrite Hv in H.
+  apply (eval_pure fuel vs sc (v_body vw) v sc' x val H B).
+  - intros I. rewrite (NL x I) in B. discriminate.
+  - intros ->. rewrite NI in B. discriminate.
+Qed.
+
+Example evaluate_view_pure_full_applies :
+  let vs := [("main", {| v_params := ["p0"; "xs"];
+                         v_body := ETransform (EName "p0") "." [SLet "q" (EBin OpWHERE (EName "xs") (EBin OpGT (EName "p0") (ELit (VInt 1)) "") "p0");
+                                                                 SAssign "kept" (EName "q")] TyOther |})] in
+  let sc := [("p0", VInt 7); ("xs", VList [VInt 1; VInt 2; VInt 3])] in
+  (forall x, In x (lets (ETransform (EName "p0") "." [SLet "q" (EBin OpWHERE (EName "xs") (EBin OpGT (EName "p0") (ELit (VInt 1)) "") "p0");
+                                                       SAssign "kept" (EName "q")] TyOther)) -> sget x sc = None) /\
+  exists v sc', evaluate_view 10 vs "main" sc = Ok (v, sc') /\ sget "p0" sc' = Some (VInt 7).
+Proof.
+  cbn zeta. split.
+  - intros x [<-|[]]. reflexivity.
+  - eexists _, _. split; [vm_compute; reflexivity|reflexivity].
+Qed.
